@@ -3,7 +3,7 @@
    filtered reply, a PTR translation). *)
 From Coq Require Import String Ascii.
 From Sdns Require Import Common.Base Gen.C20 C20.Model C20.Spec
-  C20.Proofs_gen C20.Proofs_embed C20.Proofs_ptr C20.Proofs_serve C20.Proofs_loops.
+  C20.Proofs_gen C20.Proofs_embed C20.Proofs_ptr C20.Proofs_serve C20.Proofs_loops C20.Proofs_subq.
 Open Scope N_scope.
 
 (* RFC 6052 2.4: 2001:db8:122::/48 + 192.0.2.33 = 2001:db8:122:c000:2:2100:: *)
@@ -193,3 +193,17 @@ Example ex_ttl_loop :
     (map Proofs_loops.rr_as_A [RA (bs "h.t.") 300 [192; 0; 9; 1]; RA (bs "h.t.") 60 [192; 0; 9; 2]; RA (bs "h.t.") 600 [192; 0; 9; 3]]) 120
   = (Common.GoList.GoNext, (map Proofs_loops.rr_as_A [RA (bs "h.t.") 300 [192; 0; 9; 1]; RA (bs "h.t.") 60 [192; 0; 9; 2]; RA (bs "h.t.") 600 [192; 0; 9; 3]], 60)).
 Proof. reflexivity. Qed.
+
+(* exclude_zones = [" CORP.Ex.T "]: stored as "corp.ex.t."; "H.Corp.EX.t." lies below
+   it (no lookup, the next handler's reply untouched); "badcorp.ex.t." does not *)
+Definition ex_zone_cf : config := mk_config [Some wkp_net] [] [bs " CORP.Ex.T "] None None.
+Example ex_zone_spelling :
+  Proofs_subq.fq (trim_space (lower (bs " CORP.Ex.T "))) = bs "corp.ex.t."
+  /\ c_zones (compile ex_zone_cf) = [bs "corp.ex.t."]
+  /\ has_suffix (lower (bs "H.Corp.EX.t.")) (46 :: bs "corp.ex.t.") = true
+  /\ (let x := serve cur ex_zone_cf (mk_query 1 1 28 (bs "H.Corp.EX.t.") true false true false [203; 0; 113; 9])
+                     (Some (ex_down, 0)) false (QResp ttl_witness_a) None in
+      x_path x = PNext /\ x_aq x = false)
+  /\ x_path (serve cur ex_zone_cf (mk_query 1 1 28 (bs "badcorp.ex.t.") true false true false [203; 0; 113; 9])
+                   (Some (ex_down, 0)) false (QResp (mk_msg false 1 0 false None [RA (bs "badcorp.ex.t.") 300 [192; 0; 9; 1]] [])) None) = PSynth.
+Proof. vm_compute. repeat split; reflexivity. Qed.
